@@ -610,7 +610,7 @@ def mentions_fields(b, names):
 
 
 INSERT = {'push_back': 'back', 'push_front': 'front'}
-REMOVE = {'pop_front': 'front', 'pop_back': 'back', 'drain_all': 'front'}  # drain_all: the whole buffer, oldest first
+REMOVE = {'pop_front': 'front', 'pop_back': 'back', 'drain_all': 'front', 'drain_senders': 'front'}  # drain_all: the whole buffer, oldest first
 ORDER_PRESERVING = {'remove', 'clear', 'retain', 'truncate', 'drain_all'}
 READONLY = {'len', 'is_empty', 'iter', 'capacity', 'front', 'back', 'get', 'contains', 'as_slices', 'exhausted'}
 
